@@ -81,6 +81,22 @@ func (p *PrimitiveCond) Match(req *bfe_basic.Request) bool {
 	return r
 }
 
+// portSeparator returns the index of the ':' that separates the optional port in a Host
+// value, or -1 if there is none. An IPv6 literal is enclosed in brackets ("[::1]:8080"),
+// so the search starts at the closing ']'.
+func portSeparator(hostport string) int {
+	start := 0
+	if strings.HasPrefix(hostport, "[") {
+		if i := strings.Index(hostport, "]"); i > 0 {
+			start = i
+		}
+	}
+	if i := strings.Index(hostport[start:], ":"); i >= 0 {
+		return start + i
+	}
+	return -1
+}
+
 type HostFetcher struct{}
 
 func (hf *HostFetcher) Fetch(req *bfe_basic.Request) (interface{}, error) {
@@ -89,7 +105,10 @@ func (hf *HostFetcher) Fetch(req *bfe_basic.Request) (interface{}, error) {
 	}
 
 	// ignore optional port in Host
-	host := strings.SplitN(req.HttpRequest.Host, ":", 2)[0]
+	host := req.HttpRequest.Host
+	if i := portSeparator(host); i >= 0 {
+		host = host[:i]
+	}
 	return host, nil
 }
 
@@ -130,7 +149,7 @@ func (pf *PortFetcher) Fetch(req *bfe_basic.Request) (interface{}, error) {
 	}
 
 	port := "80"
-	i := strings.Index(req.HttpRequest.Host, ":")
+	i := portSeparator(req.HttpRequest.Host)
 	if i > 0 {
 		port = req.HttpRequest.Host[i+1:]
 	}
